@@ -260,17 +260,18 @@ func (g *GroupSet) resultWriteUnformatted(query *Query, rows []result, fd *os.Fi
 }
 
 func (g *GroupSet) resultWriteUnformattedHeader(query *Query, fd *os.File, lastColumn int) (err error) {
+	// Write the header line with a single write: if the process is killed in
+	// between several small writes, an append-mode outfile keeps a torn header
+	// for ever (the next run sees a non-empty file and never writes one again).
+	var sb strings.Builder
 	for i, sc := range query.Select {
-		if _, err = fd.WriteString(sc.FieldStorage); err != nil {
-			return
-		}
+		sb.WriteString(sc.FieldStorage)
 		if i == lastColumn {
 			continue
 		}
-		if _, err = fd.WriteString(protocol.CSVDelimiter); err != nil {
-			return
-		}
+		sb.WriteString(protocol.CSVDelimiter)
 	}
-	_, err = fd.WriteString("\n")
+	sb.WriteString("\n")
+	_, err = fd.WriteString(sb.String())
 	return
 }
